@@ -73,7 +73,7 @@ def plan_c01(tier, seed):
     ck = _scale(tier, 60, 150)
     jobs = pool_jobs(cfgs, ["walk", "phased", "corner"], n, ops, ck) + coll_jobs(cfgs, ["walk", "phased", "corner"], n // 2, ops, ck) \
         + stack_jobs(cfgs, ["walk", "phased"], n, ops, ck, kinds=STACK_KINDS + ITER_KINDS + ["static_allocator"]) \
-        + low_jobs(cfgs, n, ops, ck)
+        + low_jobs(cfgs, n, ops, ck) + fail_jobs(["rwd", "dbg"], tier, faults=False)
     if not q:
         jobs += pool_jobs(["rwd"], ["walk", "corner"], 300, ops, 100, flavour="casan") \
             + stack_jobs(["rwd"], ["walk"], 300, ops, 100, flavour="casan", kinds=STACK_KINDS + ITER_KINDS)
@@ -92,7 +92,7 @@ def plan_c02(tier, seed):
     ck = _scale(tier, 50, 150)
     jobs = pool_jobs(cfgs, ["walk", "phased"], n, ops, ck) + coll_jobs(cfgs, ["walk", "phased"], n // 2, ops, ck) \
         + stack_jobs(cfgs, ["walk", "phased"], n, ops, ck, kinds=STACK_KINDS + ITER_KINDS + ["static_allocator"]) \
-        + low_jobs(cfgs, n, ops, ck)
+        + low_jobs(cfgs, n, ops, ck) + fail_jobs(["rwd", "dbg"], tier, faults=False)
     if not q:
         jobs += stack_jobs(["rwd", "dbg"], ["walk"], 300, ops, 100, flavour="casan", kinds=STACK_KINDS + ITER_KINDS) \
             + low_jobs(["rwd", "dbg"], 200, ops, 100, flavour="casan", kinds=LOW_KINDS)
@@ -106,6 +106,21 @@ def plan_c02(tier, seed):
 
 FAIL_KINDS = ["pool<node>/grow", "pool<array>/grow", "pool<small>/grow", "pool<node>/blk", "pool<small>/blk", "coll<node,log2>/grow",
               "coll<array,identity>/grow", "coll<small,log2>/grow", "coll<array,log2>/grow", "stack/grow", "stack/blk"]
+
+
+def fail_jobs(cfgs, tier, faults=True, maxima=True):
+    q = tier == "quick"
+    jobs = []
+    nf = _scale(tier, 16, 80)
+    nm = _scale(tier, 100, 1500)
+    for cfg in cfgs:
+        for k in FAIL_KINDS:
+            extra = ["--maxk", "12"] if q else []
+            if faults:
+                jobs += [Job("h_fail", cfg, "asan", "faults", k, c, ops=_scale(tier, 120, 250), extra=extra, cpu=600) for c in chunks(nf, 4 if q else 6)]
+            if maxima:
+                jobs += [Job("h_fail", cfg, "asan", "maxima", k, c, cpu=300) for c in chunks(nm, 50 if q else 150)]
+    return jobs
 
 
 def plan_c03(tier, seed):
@@ -346,7 +361,8 @@ def plan_c14(tier, seed):
 
 
 STL_CONTAINERS = ["list", "forward_list", "set", "multiset", "map", "multimap", "unordered_set", "unordered_map", "vector", "deque", "basic_string"]
-STL_PROGRAM_KINDS = ["%s/%s" % (c, a) for a in ("std_allocator", "any_std_allocator") for c in STL_CONTAINERS] + ["smart-pointers"]
+STL_PROGRAM_KINDS = ["%s/%s" % (c, a) for a in ("std_allocator", "any_std_allocator") for c in STL_CONTAINERS] + ["smart-pointers"] \
+    + ["%s/any_std_allocator-stateless" % c for c in ("list", "set", "vector", "unordered_map")]
 NODESIZE_KINDS = ["forward_list", "list", "set", "multiset", "unordered_set", "unordered_multiset", "map", "multimap", "unordered_map",
                   "unordered_multimap", "shared_ptr"]
 
@@ -458,7 +474,7 @@ def plan_c15(tier, seed):
 
 
 CAP_KINDS = ["pool<node>", "pool<array>", "pool<small>"]
-BAD_KINDS = ["pool<node>", "pool<array>", "pool<small>", "stack", "block-source"]
+BAD_KINDS = ["pool<node>", "pool<array>", "pool<small>", "stack", "block-source", "static-exhaustion-valid"]
 
 
 def plan_c16(tier, seed):
@@ -540,7 +556,8 @@ def plan_c18(tier, seed):
     ops = _scale(tier, 250, 400)
     ck = _scale(tier, 40, 100)
     jobs += pool_jobs(cfgs, ["walk", "phased"], n, ops, ck) + coll_jobs(cfgs, ["walk"], n // 2, ops, ck) \
-        + stack_jobs(cfgs, ["walk", "phased"], n, ops, ck, kinds=STACK_KINDS + ITER_KINDS + ["static_allocator"])
+        + stack_jobs(cfgs, ["walk", "phased"], n, ops, ck, kinds=STACK_KINDS + ITER_KINDS + ["static_allocator"]) \
+        + fail_jobs(["rwd", "dbg"], tier)
     plan = dict(jobs=jobs, level="exploration",
                 rule="(a) grid: one case = one node size of one pool type; for every node count of the tier's set (quick: counts <= 16, within 2 of a "
                      "multiple of 255, powers of two and a 2% seeded sample, node sizes 1..130; thorough: every count 1..2000 for every node size "
